@@ -394,7 +394,7 @@ func (p *Properties) Unpack(bufr *bytes.Buffer, packetType byte) error {
 		case PropAuthMethod:
 			p.AuthMethod, err = propertyReadUTF8String(p.AuthMethod, newBufr, propType, nil)
 		case PropAuthData:
-			p.AuthData, err = propertyReadUTF8String(p.AuthData, newBufr, propType, nil)
+			p.AuthData, err = propertyReadBinary(p.AuthData, newBufr, propType, nil)
 		case PropRequestProblemInfo:
 			p.RequestProblemInfo, err = propertyReadBool(p.RequestProblemInfo, newBufr, propType)
 		case PropWillDelayInterval:
